@@ -268,9 +268,12 @@ def main(tier):
             continue
         if "feature=" in pred or "feature" in pred:
             n_feature += 1
-        run.ob(rel in allowed_files and ("feature=" in pred) and "debug_assertions" not in pred and "overflow_checks" not in pred, "cfg|%s|%s" % (rel, pred[:60]),
-               "C17 configuration-dependent code is confined to the crate root (module/export gates) and the category enum", "%s:%d" % (rel, line), pred[:200], distinct="cfg|%s" % rel)
-    run.floor("cfg(feature) occurrences found", n_feature, 13)
+        # what a feature gate does to the compiled program is decided by the per-module comparison above, wherever the
+        # gate is written; the census only rules out predicates that are not about the five features at all
+        names = set(re.findall(r'(\w+)\s*=', pred)) | set(re.findall(r'\b(debug_assertions|overflow_checks|test|unix|windows|target_\w+|panic)\b', pred))
+        run.ob(names <= {"feature"}, "cfg|%s|%s" % (rel, pred[:60]),
+               "C17 conditional compilation depends on the evaluator features only (not on profile, target or other cfgs)", "%s:%d" % (rel, line), pred[:200], distinct="cfg|%s" % rel)
+    run.floor("cfg(feature) occurrences found", n_feature, 5)
     # Cargo.toml feature table
     try:
         ct = tomllib.load(open(os.path.join(repo, "Cargo.toml"), "rb"))
